@@ -1,5 +1,19 @@
 From NL Require Import Tb.Model.
 
+Lemma cut_wc_entry : forall u e inner, forallb user_frame u = true -> is_wc e = true -> cut_wc (u ++ e :: inner) = u.
+Proof.
+  induction u as [|f r IH]; intros e inner H E; simpl.
+  - rewrite E. reflexivity.
+  - simpl in H. apply andb_prop in H. destruct H as [Hf Hr]. destruct f; simpl in *; try discriminate; rewrite IH; auto.
+Qed.
+
+Lemma clean_kbd_call_user_prefix : forall f u mid inner, forallb user_frame (f :: u) = true ->
+  clean KbdInterrupt (raw_kbd_call (f :: u) mid inner) = f :: u.
+Proof.
+  intros f u mid inner H. unfold clean, raw_kbd_call. simpl remove_frame. simpl clean_syntax. simpl.
+  simpl in H. apply andb_prop in H. destruct H as [_ Hu]. rewrite cut_wc_entry; auto.
+Qed.
+
 Lemma cut_wc_user : forall u inner, forallb user_frame u = true -> cut_wc (u ++ WithContextM :: inner) = u.
 Proof.
   induction u as [|f r IH]; intros inner H; simpl.
@@ -73,4 +87,12 @@ Proof.
   { unfold clean_syntax. destruct k; try reflexivity. apply clean_syntax_loop_user; auto. }
   rewrite S. unfold clean_kbd. destruct k; try reflexivity. destruct u as [|f r]; [reflexivity|].
   simpl in H. apply andb_prop in H. destruct H as [_ Hr]. rewrite cut_wc_user_only; auto.
+Qed.
+
+Lemma no_nextline_kbd_call : forall f u mid inner, forallb user_frame (f :: u) = true ->
+  existsb nextline_frame (clean KbdInterrupt (raw_kbd_call (f :: u) mid inner)) = false.
+Proof.
+  intros f u mid inner H. rewrite clean_kbd_call_user_prefix by exact H.
+  generalize dependent (f :: u). induction l as [|g r IH]; intros H; [reflexivity|].
+  simpl in *. apply andb_prop in H. destruct H as [Hf Hr]. unfold nextline_frame at 1. rewrite Hf. simpl. auto.
 Qed.
